@@ -7,7 +7,7 @@ CLAIMED = {
  },
  "C04": {
   "text": "Generated call histories over forests (whole mutating API, operands = any live node of any kind incl. ones the call must refuse) with all structural invariants, handle-liveness and handle-kind rules re-checked on a bounded, cycle-safe snapshot after every step; plus an exhaustive small-scope sweep of every (tree <= 4 nodes, operation, operand tuple). Exploration: no counterexample within the explored histories / the complete small scope.",
-  "note": "Trusted: the snapshot code (bridge) and xot's primitive accessors parent/all_traverse/value/is_removed. Bounds: <= 200 ops, <= 60 start nodes.",
+  "note": "Trusted: the snapshot code (bridge) and xot's primitive accessors parent/all_traverse/value/is_removed. Bounds: <= 200 ops, <= 60 start nodes. Extra plans: start forests with adjacent / empty text nodes (small-adjacent exhaustive, hist-adjacent) and with trees made by the parser from generated rich renderings (hist-parsed).",
   "technique": "stateful property-based testing (proptest-generated histories, invariant after every step) + small-scope exhaustive enumeration",
  },
  "C05": {
@@ -42,7 +42,7 @@ CLAIMED = {
  },
  "C17": {
   "text": "The renderer records the byte range of every item it writes; parse_with_span_info / parse_fragment_with_span_info must report exactly those ranges for every element start/end, attribute name/value, text (merged runs), comment and PI target/content, on char boundaries, and the slices must decode to the node values. ParseError spans of damaged inputs must lie inside the source on char boundaries.",
-  "note": "Trusted: the renderer's offset bookkeeping and the span conventions documented in DESIGN.md C17.",
+  "note": "Trusted: the renderer's offset bookkeeping and the span conventions documented in DESIGN.md C17. Non-ASCII prefixes and empty CDATA sections inside text runs are generated.",
   "technique": "property-based testing with generator-recorded offsets as oracle + generated faulty inputs for error spans",
  },
  "C01": {
@@ -82,7 +82,7 @@ CLAIMED = {
  },
  "C15": {
   "text": "Generated well-scoped trees seeded with redundant / aliased / shadowed declarations: after deduplicate_namespaces every element's declaration map is a sub-map of the old one, content is unchanged, serialisation still succeeds and reparses to the same content, and a second call is a no-op.",
-  "note": "Precondition (serialises before) is checked and counted, not assumed.",
+  "note": "Precondition (serialises before) is checked and counted, not assumed. Plan trees-stripped covers API-only layouts (no-namespace elements below a default namespace without xmlns=\"\").",
   "technique": "property-based testing with before/after metamorphic oracle and idempotence law",
  },
  "C12": {
